@@ -20,6 +20,8 @@ def _run_check(prop: str, tier: str) -> int:
     try:
         ctx = Ctx(prop, tier)
         mod.run(ctx)
+        from .rules import lintutil
+        lintutil.apply(ctx, prop)
         rc = ctx.finish()
         if rc == 0 and tier == "thorough":
             from .selftest import run_selftest
